@@ -57,12 +57,13 @@ type outcome struct {
 
 // projState is what the coordinator keeps per project.
 type projState struct {
-	p        *project
-	base     runResult
-	sites    []string
-	variants map[string]string // file|sha(content) -> signature of the single-site finding that produced it
-	hashes   map[string]bool   // distinct tree hashes over all runs and steps... of step-k trees: key "k:hash"
-	orderDep map[string]bool   // files with an order-dependence finding
+	p          *project
+	base       runResult
+	sites      []string
+	variants   map[string]string // file|sha(content) -> signature of the single-site finding that produced it
+	hashes     map[string]bool   // distinct tree hashes over all runs and steps... of step-k trees: key "k:hash"
+	orderDep   map[string]bool   // files with an order-dependence finding
+	o2Reported map[string]bool   // files with an unlisted idempotence violation already reported
 }
 
 func main() {
@@ -112,13 +113,13 @@ func main() {
 	}
 
 	var (
-		mu          sync.Mutex
-		execs       int // generator executions (transitions)
-		compared    int // executions whose tree was compared by the oracle
-		states      = map[string]bool{}
-		exhaustive  = true
-		incomplete  []string
-		)
+		mu         sync.Mutex
+		execs      int // generator executions (transitions)
+		compared   int // executions whose tree was compared by the oracle
+		states     = map[string]bool{}
+		exhaustive = true
+		incomplete []string
+	)
 	addState := func(s runSpec, steps int) {
 		for k := 1; k <= steps; k++ {
 			states[fmt.Sprintf("%s|%s|%s|%d|%v|%d", s.Project, s.MapOrder, s.StartDir, s.MaxProcs, s.Plain, s.firstStep()+k)] = true
@@ -135,7 +136,7 @@ func main() {
 				defer wg.Done()
 				spec := runSpec{Project: p.Name, StartDir: p.StartDirs[0], MaxProcs: 16, Steps: 2}
 				res := r.execute(i, p, nil, spec, true)
-				sts[i] = &projState{p: p, base: res, sites: res.Sites, variants: map[string]string{}, hashes: map[string]bool{}, orderDep: map[string]bool{}}
+				sts[i] = &projState{p: p, base: res, sites: res.Sites, variants: map[string]string{}, hashes: map[string]bool{}, orderDep: map[string]bool{}, o2Reported: map[string]bool{}}
 			}(i, p)
 		}
 		wg.Wait()
@@ -483,6 +484,14 @@ func checkIdempotent(st *projState, res runResult, spec runSpec) {
 		minus, plus := lineDiff(t1[f], t2[f])
 		fp := common.Hash(minus, plus)
 		sig := fmt.Sprintf("not-idempotent:%s:%s:%s", st.p.Name, f, fp)
+		// one unlisted idempotence violation per file is enough (an unstable generator yields a
+		// new fingerprint in every run); listed ones never hide a different fingerprint
+		if !c.IsKnown(sig) {
+			if st.o2Reported[f] {
+				continue
+			}
+			st.o2Reported[f] = true
+		}
 		c.Report(sig, fmt.Sprintf("second generation on the freshly generated tree changed %s (history %s)", f, spec),
 			map[string]any{"spec": spec, "kind": "idempotence", "diff_T1_to_T2": describeDiff(t1, t2, f)})
 	}
